@@ -690,7 +690,7 @@ func run(c *core.Ctx) {
 	if c.Tier == core.Thorough {
 		depth = 4
 	}
-	srcs := []string{"ttml-framerate-24", "srt-lf", "srt-bom-noindex-eofblank", "vtt-full", "ssa-small", "ttml-small", "stl-open-25-2", "testdata/example-in.srt", "testdata/example-in.vtt", "testdata/example-in.ttml", "testdata/example-in.ssa", "testdata/example-opn-in.stl"}
+	srcs := []string{"ttml-framerate-24", "ssa-v4plus", "stl-open-30-tcp10h", "srt-lf", "srt-bom-noindex-eofblank", "vtt-full", "ssa-small", "ttml-small", "stl-open-25-2", "testdata/example-in.srt", "testdata/example-in.vtt", "testdata/example-in.ttml", "testdata/example-in.ssa", "testdata/example-opn-in.stl"}
 	for _, d := range docs {
 		use := false
 		for _, n := range srcs {
